@@ -172,3 +172,35 @@ theorem nonvacuous_noIdx : Val.noIdxKeys exVal = true := by decide
 theorem nonvacuous_roundtrip : encodeNode (decodeNode exVal) = exVal := by decide
 
 end Ytk.C01
+
+/-! ## gap7a: the hypothesis of `decodeI_scalarCount` is needed -/
+namespace Ytk.C01
+
+/-- `IVal.keysOk` cannot be dropped from `decodeI_scalarCount`: the integer key `1` and the string key
+    `"1"` of one yaml.v3 map stringify to the same member name, one of the two scalars is lost (which one
+    is decided by Go's map order on the implementation; the model keeps the later one) — two scalars in,
+    one scalar out.  Likewise a key ending in an index group (D26). -/
+theorem decodeI_collision_counterexample :
+    IVal.keysOk (.obj [(⟨"int", "1"⟩, .sc ⟨"string", "x"⟩), (⟨"string", "1"⟩, .sc ⟨"string", "y"⟩)]) = false ∧
+    IVal.scalarCount (.obj [(⟨"int", "1"⟩, .sc ⟨"string", "x"⟩), (⟨"string", "1"⟩, .sc ⟨"string", "y"⟩)]) = 2 ∧
+    Node.scalarCount (decodeI (.obj [(⟨"int", "1"⟩, .sc ⟨"string", "x"⟩), (⟨"string", "1"⟩, .sc ⟨"string", "y"⟩)])) = 1 := by
+  decide +kernel
+
+/-- `Val.noIdxKeys` cannot be dropped from `scalarCount_decode_partial` either: with the keys `a` and
+    `a[0]` in one map the second entry overwrites the first (the list replaces the scalar) — a scalar is
+    lost, not only moved. -/
+theorem scalarCount_decode_counterexample :
+    (Val.obj [("a", .sc ⟨"int", "1"⟩), ("a[0]", .sc ⟨"int", "2"⟩)]).WF ∧
+    Val.scalarCount (.obj [("a", .sc ⟨"int", "1"⟩), ("a[0]", .sc ⟨"int", "2"⟩)]) = 2 ∧
+    Node.scalarCount (decodeNode (.obj [("a", .sc ⟨"int", "1"⟩), ("a[0]", .sc ⟨"int", "2"⟩)])) = 1 := by
+  refine ⟨?_, by decide +kernel, by decide +kernel⟩
+  refine .obj (.cons ?_ (.cons (fun _ hp => by cases hp) .nil)) ?_
+  · intro p hp
+    simp only [List.mem_singleton] at hp
+    subst hp
+    decide
+  · intro p hp
+    simp only [List.mem_cons, List.not_mem_nil, or_false] at hp
+    rcases hp with rfl | rfl <;> exact .sc _
+
+end Ytk.C01
